@@ -432,6 +432,14 @@ func (b *healthyBackend) ServeHTTP(w http.ResponseWriter, r *http.Request) {
 	b.seen[rid] = fmt.Sprintf("%d:%s", n, sum)
 	b.mu.Unlock()
 	atomic.AddInt64(&b.hits, 1)
+	if d, err := time.ParseDuration(r.Header.Get("X-Verif-Delay")); err == nil && d > 0 {
+		// a backend that takes its time (the client may give up meanwhile)
+		select {
+		case <-time.After(d):
+		case <-r.Context().Done():
+			return
+		}
+	}
 	w.Header().Set("X-Backend-Id", fmt.Sprint(b.id))
 	w.WriteHeader(200)
 	fmt.Fprintf(w, "ok %d", b.id)
@@ -608,6 +616,7 @@ func endToEnd(c *lib.Ctx) {
 		lib.StopWait(inst)
 	}
 	blackholeScenarios(c, healthy)
+	clientAbortScenarios(c, healthy)
 	c.Count("e2e_fault_backend_connections", atomic.LoadInt64(&faultHits[bClosed])+atomic.LoadInt64(&faultHits[bReset])+atomic.LoadInt64(&faultHits[bHalf]))
 	var hh int64
 	for _, h := range healthy {
